@@ -44,7 +44,7 @@ int main(int argc, char** argv)
     bool const thorough = R.thorough();
     int const bound = rng_part ? 1 : (thorough ? 3 : 2);
     auto configs = config_lattice(thorough);
-    auto prims = primary_lattice(thorough);
+    auto prims = primary_lattice(thorough, /*extended=*/true);
     if (rng_part)
     {
         // forced random words: the interaction outcomes stay at their defaults; a thinner
@@ -78,6 +78,8 @@ int main(int argc, char** argv)
         std::unique_ptr<LoopProblem> P;
         for (auto const& pc : prims)
         {
+            if (needs_proton(pc) != cc.cfg.with_proton)
+                continue;
             uint64_t idx = outer++;
             if (!R.mine(idx))
                 continue;
